@@ -140,6 +140,8 @@ def caseNewLine (c : UInt8) : UInt8 := if isNewLineB c then c else otherByte c
 /-- condition evaluation; `none` = the Go code would panic (slice index out of range) -/
 def evalCond {σ} (env : Env) (s : Sc σ) (c : UInt8) : Cond → Option Bool
   | .byteEq b => some (c.toNat == b)
+  | .byteLe b => some (decide (c.toNat ≤ b))
+  | .byteGe b => some (decide (b ≤ c.toNat))
   | .eqCaseWs => some (c == caseWhitespace c)
   | .eqCaseNl => some (c == caseNewLine c)
   | .isWs => some (isSpaceB c)
